@@ -726,6 +726,28 @@ def d40():
     return with_tree(run)
 
 
+def d41():
+    """a request for `<dir>/.` lists the directory under the selector base `<dir>/.`: every child selector then contains `./`, is refused
+    by the filter and dropped - the client gets an empty menu, and that empty listing is written to <dir>'s own cache file, so `<dir>`
+    itself is served empty to everybody for the cache lifetime"""
+    def run(d):
+        os.mkdir(os.path.join(d, "dir"))
+        for n in ("a.txt", "b.txt"):
+            open(os.path.join(d, "dir", n), "w").write("x")
+        cfg = make_config(root=d, conf="conf/pygopherd.conf")
+        ref, _, _ = request(b"/dir\r\n", cfg)
+        for f in os.listdir(os.path.join(d, "dir")):
+            if f.startswith(".cache"):
+                os.unlink(os.path.join(d, "dir", f))
+        dot, _, _ = request(b"/dir/.\r\n", cfg)
+        after, _, _ = request(b"/dir\r\n", cfg)
+        rootdot, _, _ = request(b"/.\r\n", cfg)
+        bad = after != ref or (b"a.txt" not in dot and not dot.startswith(b"3"))
+        return bad, f"/dir before: {ref.count(b'.txt')} entries; answer to /dir/.: {dot[:40]!r}; /dir afterwards: {after.count(b'.txt')} entries; /. : {rootdot[:30]!r}"
+
+    return with_tree(run)
+
+
 ALL = {k: v for k, v in list(globals().items()) if k.startswith("d") and k[1:2].isdigit() and callable(v)}
 ALL.pop("d8", None)
 
